@@ -6,9 +6,12 @@
    Proved here: the lock-store history is append-only (sizes never shrink, earlier roots are the
    roots of prefixes of later leaf sequences, timestamps strictly increase) and every published
    checkpoint was committed to the lock store before it became readable.
-   Not a theorem (false of the code with two live instances, see known finding C06): that the
-   *published* history never shrinks; for one live instance it is exercised by the harness monitors. *)
-From SL Require Import Ctlog.Model Ctlog.Spec Ctlog.Theorems Ctlog.Example.
+   The *published* history is append-only exactly as far as every upload of the checkpoint object
+   carried the then-current lock value ([uploads_current], C01_published_history_append_only);
+   that premise is what the harness monitor checks on every upload: it holds whenever one instance
+   is live at a time (crashes and restarts: C01's own quantifier) and fails in the known finding
+   under C06 (two live instances; Properties/C06.v, C06_published_rollback_refuted). *)
+From SL Require Import Ctlog.Model Ctlog.Spec Ctlog.Theorems Ctlog.PubMono Ctlog.Example.
 
 Theorem C01_lock_history_append_only : forall (sha : bytes -> bytes) (evs : list ev),
   append_only sha (w_lockhist (run sha evs init)).
@@ -20,6 +23,22 @@ Theorem C01_published_was_committed_first : forall (sha : bytes -> bytes) (evs :
   exists ls, In (c, ls) (firstn k (w_lockhist (run sha evs init))).
 Proof. exact published_was_committed_first. Qed.
 Print Assumptions C01_published_was_committed_first.
+
+Theorem C01_published_history_append_only : forall (sha : bytes -> bytes) (evs : list ev),
+  let w := run sha evs init in
+  uploads_current w ->
+  forall i j c k c' k', (i < j)%nat ->
+    nth_error (w_pubhist w) i = Some (c, k) -> nth_error (w_pubhist w) j = Some (c', k') ->
+    c = c' \/
+    (cp_size c <= cp_size c' /\ (cp_ts c < cp_ts c')%Z /\
+     exists ls', In (c', ls') (w_lockhist w) /\
+                 cp_root c = mroot sha (leaf_hashes sha (firstn (N.to_nat (cp_size c)) ls')))%N.
+Proof. exact published_history_append_only. Qed.
+Print Assumptions C01_published_history_append_only.
+
+(* non-vacuity of the premise: in the example history every upload was current *)
+Example C01_example_uploads_current : uploads_current world1.
+Proof. apply uploads_current_b_sound. vm_compute. reflexivity. Qed.
 
 (* non-vacuity: a history with a failed checkpoint upload, a crash after the CAS and a recovery
    commits five checkpoints and publishes three *)
